@@ -213,11 +213,27 @@ Section Forget.
     cbn [flat_map filter]. rewrite app_length, IH. unfold no_id. destruct (eid e); reflexivity.
   Qed.
 
+  (* the first k id-carrying events all carry an id *)
+  Lemma n_upserts_firstn_with_id : forall k es,
+    n_upserts (firstn k (with_id es)) = length (firstn k (with_id es)) /\
+    (length (firstn k (with_id es)) <= n_upserts es)%nat.
+  Proof.
+    intros k es. split; [|rewrite firstn_length; unfold n_upserts, with_id; lia].
+    unfold n_upserts. f_equal.
+    assert (H0 : Forall (fun e => negb (no_id e) = true) (with_id es)).
+    { apply Forall_forall. intros e He. unfold with_id in He. apply filter_In in He. tauto. }
+    assert (H : Forall (fun e => negb (no_id e) = true) (firstn k (with_id es))).
+    { revert H0. generalize (with_id es). clear. induction k as [|k IH]; intros l H; [constructor|].
+      destruct H; cbn [firstn]; constructor; auto. }
+    clear H0.
+    induction H as [|e l He _ IH]; [reflexivity|]. cbn [filter]. rewrite He, IH. reflexivity.
+  Qed.
+
   (* the token script of a call is the projection of its statement script *)
   Lemma forget_script : forall c o,
     map (forget_micro tokf) (sscript c o) = expand (forget_op tokf c o).
   Proof.
-    intros c o. destruct o as [o|b es k]; [destruct o|]; cbn [sscript forget_op].
+    intros c o. destruct o as [o|b es k|b es k]; [destruct o| |]; cbn [sscript forget_op].
     - destruct (sql_insert_bucket c b m); reflexivity.
     - destruct (negb _); reflexivity.
     - reflexivity.
@@ -240,6 +256,9 @@ Section Forget.
                      <= length (filter no_id es))%nat).
       { destruct (sql_bucket_rowid c b); [rewrite firstn_length; lia|cbn; lia]. }
       f_equal. lia.
+    - rewrite map_app, forget_upserts. cbn [expand map forget_micro length Nat.add].
+      rewrite length_upsert_toks. destruct (n_upserts_firstn_with_id k es) as [E L]. rewrite E.
+      do 4 f_equal. lia.
   Qed.
 
   Lemma forget_hist_script : forall h c,
